@@ -23,12 +23,17 @@ META = {
     "stubs": ["Phase._phase_dtype replaced by object fields [('int','O'),('frac','O')] so that a Phase can hold shadow values; the real "
               "__array_ufunc__ / argmin / argmax / argsort / sort / min / max / ptp code runs on them",
               "IEEE float64 shadow values (z3 FloatingPoint (11,53), round-to-nearest-even) for the two parts; z3 tactic solver qffp",
-              "_parse_string: CrossHair (second symbolic executor) on a symbolic str, plus solver-free exact replays"],
+              "_parse_string: CrossHair (second symbolic executor) on a symbolic str, plus solver-free exact replays",
+              "rendering: str/int/float/format in pulsarbat.pulsar.phase and the shadow numbers' __format__ return symbolic decimal strings "
+              "(pbsym/sstr.py): '.Nf' = digits of the exact value rounded to nearest (either neighbour at a tie), str() of 0.25 <= x < 1 = "
+              "'0.' + 1..17 digits (last non-zero) within half an ulp and on x's side of 1/4 and 1/2; np.vectorize calls the function per element"],
     "bounds": {"comparisons": "all float64 pairs of normalised real phases (|count| <= 2^52 integer-valued, |frac| <= 1/2), six operators", "reductions": "argmin, argmax, min, max on arrays of length 2 at the (5,11) float format (the code is width-generic; z3 does not finish at (11,53)); thorough adds length 3 at (4,7). argsort/sort/ptp are NOT decided",
-               "parsing": "strings of the plain-decimal grammar up to length 6 (quick) / 8 (thorough)"},
+               "parsing": "strings of the plain-decimal grammar up to length 6 (quick) / 8 (thorough)",
+               "rendering": "every count |i| <= 2^52 and fraction in [-1/2, 1/2]; to_string precision in {0,1,2,3,6,None} quick, "
+                            "{0..6,8,10,12,15,None} thorough; format '.Nf' N in {1,2,4} quick, {1,2,3,4,6,9} thorough; imaginary, alwayssign, latex"},
     "assumptions": ["operands normalised as the constructor produces them"],
-    "outside": ["decimal rendering (to_string, __format__): float->decimal conversion happens in C inside a closure and has no symbolic model "
-                "within reach - not claimed", "arrays longer than 3"],
+    "outside": ["rendering is decided on exact reals: the float rounding of frac + 0.25 / frac + 1 and precisions above 15 are outside",
+                "argsort/sort/ptp", "arrays longer than 3"],
 }
 def F64():
     return SFP.SORT
@@ -369,4 +374,6 @@ def units(tier):
     if tier != "quick":
         us.append(Reduce("argmin", 3, fmt=(4, 7)))
     us.append(ParseString(5 if tier == "quick" else 7, 60 if tier == "quick" else 600))
+    from . import C15_render
+    us += C15_render.units(tier)
     return us
